@@ -318,7 +318,7 @@ pub fn shape_reuse(_thorough: bool) -> Report {
     r.cases = n;
     r.distinct = n;
     r.exhaustive = true;
-    r.space = "one ShapeBulkEval object per kind (float-slice, gradient-slice; VM) used on every ordered pair of (shape, sample count) from 6 shapes over different variable subsets ({x,y,z}, {x}, {y}, {x,z}, {}, {x,y}) x sample counts {10, 5, 0, 3, 1}: every call returns Ok with exactly the requested number of samples and bit-identical values to the closed form, and never panics".into();
+    r.space = "one Shape-level evaluator object per kind (float-slice, gradient-slice, single-point, interval; VM) used on every ordered pair of (shape, sample count) from 8 shapes over different variable subsets ({x,y,z}, {x}, {y}, {x,z}, {}, {x,y}) - three of them over {x,y} with different variable-to-index maps (min(x,y), y-3x, x-2y) - x sample counts {10, 5, 0, 3, 1}: every call returns Ok with exactly the requested number of samples and bit-identical values to the closed form (the interval result contains it), and never panics".into();
     r.sample(json!({"first":"x+y+z [10 samples]","then":"x*2 [5 samples]"}));
     r
 }
